@@ -277,7 +277,7 @@ def TAtom.produced : TAtom → List Chan
 
 /-- inside a chain a `LinearTransformation` must see all of its inputs or none: its inputs are not
 produced by an earlier member of the chain (`prod`), otherwise `__call__` raises `KeyError` when a
-forwarded channel is requested (open finding PF-27) -/
+forwarded channel is requested (open finding PF-C08d) -/
 def TAtom.insFresh : TAtom → List Chan → Bool
   | .linear _ ins _, prod => (inter ins prod).isEmpty
   | _, _ => true
